@@ -518,8 +518,8 @@ package spg
 //@   trusted
 //@   define okreqN(j, pw) = forall(str(c), trig(elems(r.requiredSets[j].s)[c]), !elems(r.requiredSets[j].s)[c]) ||
 //@                          exists(str(c), elems(r.requiredSets[j].s)[c] && incs(pw, c))
-//@   requires [C07] derived-sets: r.allowedSet != nil && forall(int(j), trig(r.requiredSets[j]), 0 <= j && j < len(r.requiredSets) ==> r.requiredSets[j].s != nil)
-//@   requires [C07] derived-filter: forall(str(pw), trig(meets(pub(r), arr(r.RequireSets), off(r.RequireSets), len(r.RequireSets), pw)),
+//@   requires [C06,C07,C13] derived-sets: r.allowedSet != nil && forall(int(j), trig(r.requiredSets[j]), 0 <= j && j < len(r.requiredSets) ==> r.requiredSets[j].s != nil)
+//@   requires [C06,C07,C13] derived-filter: forall(str(pw), trig(meets(pub(r), arr(r.RequireSets), off(r.RequireSets), len(r.RequireSets), pw)),
 //@        (forall(int(j), trig(r.requiredSets[j]), 0 <= j && j < len(r.requiredSets) ==> okreqN(j, pw))) == meets(pub(r), arr(r.RequireSets), off(r.RequireSets), len(r.RequireSets), pw))
 //@   ensures [C07] count: res != nil && bigval(res) == countReq(pub(r), arr(r.RequireSets), off(r.RequireSets), len(r.RequireSets))
 
@@ -527,8 +527,8 @@ package spg
 //@   uses ENTROPYREQ-def
 //@   define okreqE(j, pw) = forall(str(c), trig(elems(r.requiredSets[j].s)[c]), !elems(r.requiredSets[j].s)[c]) ||
 //@                          exists(str(c), elems(r.requiredSets[j].s)[c] && incs(pw, c))
-//@   requires [C07] derived-sets: r.allowedSet != nil && forall(int(j), trig(r.requiredSets[j]), 0 <= j && j < len(r.requiredSets) ==> r.requiredSets[j].s != nil)
-//@   requires [C07] derived-filter: forall(str(pw), trig(meets(pub(r), arr(r.RequireSets), off(r.RequireSets), len(r.RequireSets), pw)),
+//@   requires [C06,C07,C13] derived-sets: r.allowedSet != nil && forall(int(j), trig(r.requiredSets[j]), 0 <= j && j < len(r.requiredSets) ==> r.requiredSets[j].s != nil)
+//@   requires [C06,C07,C13] derived-filter: forall(str(pw), trig(meets(pub(r), arr(r.RequireSets), off(r.RequireSets), len(r.RequireSets), pw)),
 //@        (forall(int(j), trig(r.requiredSets[j]), 0 <= j && j < len(r.requiredSets) ==> okreqE(j, pw))) == meets(pub(r), arr(r.RequireSets), off(r.RequireSets), len(r.RequireSets), pw))
 //@   ensures [C07] value: res == entropyReq(pub(r), arr(r.RequireSets), off(r.RequireSets), len(r.RequireSets))
 
